@@ -404,6 +404,7 @@ class Verdict:
         self.assumptions = []
         self.samples = []
         self.notes = []
+        rm(os.path.join(REPLAYS, pid))
 
     def violation(self, case, detail):
         """case: dict describing the failing input (signature fields + full replay data)."""
